@@ -26,7 +26,7 @@ ANCHORS = [
     ("pycomm3/packets/ethernetip.py", "SendUnitDataRequestPacket._setup_message"), ("pycomm3/packets/logix.py", "ReadTagFragmentedRequestPacket.from_request"),
     ("pycomm3/packets/logix.py", "WriteTagFragmentedRequestPacket.from_request"),
 ]
-KINDS = ["generic", "read1", "readN", "frag2", "frag3", "wfrag", "bits", "write1", "upload", "fragempty", "mixed"]
+KINDS = ["generic", "read1", "readN", "frag2", "frag3", "wfrag", "bits", "write1", "upload", "fragempty", "refused1", "mixed"]
 
 
 def project(rng):
@@ -57,6 +57,24 @@ def issue(sc, kind, rng):
         st, out = b.call("read", d.read, f"arr{{{n}}}")
         if st == "ok" and out:
             st, out = b.call("read", d.read, "d1")
+    elif kind == "refused1":
+        # a single Read / Write Tag (addressed by symbol instance on this firmware) refused with "path segment error" /
+        # "destination unknown": whatever the client does next - give up, or ask again another way - is a new message
+        st_ = rng.choice([0x04, 0x05])
+        seen = {"n": 0}
+
+        def refuse_once(rq, seen=seen, st_=st_):
+            if rq.service not in (0x4C, 0x4D) or rq.embedded:
+                return None
+            seen["n"] += 1
+            return (st_, (), b"") if seen["n"] == 1 else None
+        sc.dev.force_status = refuse_once
+        if rng.random() < 0.5:
+            b.call("read", d.read, "d2")
+        else:
+            b.call("write", d.write, "d2", rng.randrange(1000))
+        sc.dev.force_status = None
+        st, out = b.call("read", d.read, "d1")
     elif kind == "fragempty":
         # an unusual but legal target: one fragment is answered "partial transfer" (0x06) with the type code and NO value bytes;
         # the client asks again for the same offset - in a new message, with a new sequence count
@@ -217,6 +235,42 @@ def run(ctx):
         except ScenarioDead:
             died(res, sc, f"bulk:{n}")
             continue
+    # ---- (e) SLC / PCCC traffic, including the rarely used public calls: every one of them sends connected messages -----------------------------
+    if ctx.shard % 4 == 1:
+        try:
+            import pycomm3 as p
+            from vlib.bench import Bench
+            from vlib import refslc, reftarget as rt
+            b = Bench(rng)
+            sdev = refslc.SLCDevice(rt.Identity(name="1747-L552/C SLC 5/05"), rng, b.log, refslc.DataTable.random(rng))
+            b.set_target(rt.RefTarget(rng, front=sdev, routes={((1, 0),): sdev}, policy=rt.Policy(), log=b.log))
+            drv = p.SLCDriver(b.host)
+            if b.call("open", drv.open)[0] == "ok":
+                for i in range(30 if quick else 200):
+                    op = rng.choice(["read", "read", "write", "bits", "datalog", "ptype", "filedir"])
+                    if op == "read":
+                        b.call(op, drv.read, f"N7:{rng.randrange(200)}", f"F8:{rng.randrange(100)}")
+                    elif op == "write":
+                        b.call(op, drv.write, (f"N7:{rng.randrange(200)}", rng.randrange(100)))
+                    elif op == "bits":
+                        b.call(op, drv.read, f"B3/{rng.randrange(256)}", f"I:{rng.randrange(8)}.{rng.randrange(4)}/{rng.randrange(16)}")
+                    elif op == "datalog" and hasattr(drv, "get_datalog_queue"):
+                        b.call(op, drv.get_datalog_queue, rng.choice([1, 2, 3]), rng.choice([0, 1]))
+                    elif op == "ptype" and hasattr(drv, "get_processor_type"):
+                        b.call(op, drv.get_processor_type)
+                    elif op == "filedir" and hasattr(drv, "get_file_directory"):
+                        b.call(op, drv.get_file_directory)
+                    res.ev()
+                    res.seen("slc", op)
+                    if b.dead:
+                        break
+                res.count("connected-messages", b.log.counts.get("connected-messages", 0))
+                if not b.dead:
+                    b.call("close", drv.close)
+            drain(res, b, "slc")
+            b.close()
+        except ScenarioDead:
+            pass
     # ---- (c) lost replies / resets: a retransmitted frame would repeat its count ----------------------------------------------------------
     prng = common.rng_for("C17", ctx.seed, 0, "plan")
     plan = [("cip", h) for h in lifecycle.histories(["open", "gm_conn", "gm_conn", "close"], 3)]
